@@ -280,10 +280,11 @@ func (s *serverSocket) onAck(header *parser.PacketHeader, decode parser.Decode) 
 }
 
 func (s *serverSocket) Join(room ...Room) {
+	// Held for the whole call: onClose replaces `join` with a no-op before it leaves all rooms,
+	// and a Join that had already picked up the old function must not add rooms after that.
 	s.joinMu.Lock()
-	join := s.join
-	s.joinMu.Unlock()
-	join(room...)
+	defer s.joinMu.Unlock()
+	s.join(room...)
 }
 
 func (s *serverSocket) Leave(room Room) {
